@@ -669,7 +669,48 @@ def oracle_nagle(case, impl):
     return hits[:2]
 
 
+def oracle_fin_sent(case, impl):
+    """C17/C03/C02: after closing on its own initiative (FinWait1) with every data packet acknowledged, the
+    endpoint puts its FIN on the wire (a poll with a working transport may not end Pending with the FIN never sent)."""
+    import re
+    tr = Trace(case, impl)
+    hits = []
+    if any(l.startswith(("vs tmode", "vs chanclose")) for l in case):
+        return []
+    pending, acked_upto, fin_sent = [], None, set()
+    for ev in tr.events:
+        if ev["op"] == "new":
+            pending, acked_upto, fin_sent = [], None, set()
+        if ev["op"] == "inject" and "dgram" in ev:
+            pending.append(ev["dgram"])
+        if ev["op"] != "poll" or "dgrams" not in ev:
+            continue
+        for d in pending:
+            if d["type"] in (3, 4):
+                continue
+            if acked_upto is None or _md(d["ack"], acked_upto) > 0:
+                acked_upto = d["ack"]
+        pending = []
+        for d in ev["dgrams"]:
+            if d["type"] == 1:
+                fin_sent.add(d["seq"])
+        if not ev["res"].startswith("pending"):
+            break
+        m = re.search(r"st=FinWait1;\{;our_fin:;(\d+)", ev["out"])
+        if not m:
+            continue
+        fin = int(m.group(1))
+        if fin in fin_sent or acked_upto is None:
+            continue
+        if _md(acked_upto, (fin - 1) % 65536) == 0:
+            hits.append({"sig": {"oracle": "fin_sent", "what": "fin_withheld_after_all_data_acked"},
+                         "text": f"poll at t={ev['t']} ns: state FinWait1 with our FIN = {fin}, the peer has acknowledged everything up to {acked_upto}, yet no FIN was ever sent (last_sent_seq_nr={ev['fp'].get('lss')}): the peer never learns the stream ended"})
+            break
+    return hits
+
+
 ALL = {
+    "fin_sent": oracle_fin_sent,
     "nagle": oracle_nagle,
     "isn_relabel": oracle_isn_relabel,
     "task_ends": oracle_task_ends,
